@@ -36,6 +36,25 @@ Prog(s) == Node("prog", "", s)
 Grp(e) == Node("grp", "", <<e>>)
 If(c, th, el) == Node("if", "", <<c, th, el>>)
 
+\* The dangling else.  ECMAScript gives an `else` to the nearest `if` that has none, so the TEXT of a
+\* tree If(c, s, e) whose consequence s ends in an else-less `if` (directly, through the else branch
+\* of an `if`, or through the body of a while / for) needs a brace pair around s: that block is to
+\* statements what an explicit grouping node is to expressions - the only JavaScript spelling of
+\* the tree.  ProtectElse(t) is t with exactly those blocks made explicit (a tree that came out of a
+\* parser has them already and is left as it is).
+RECURSIVE EndsInOpenIf(_)
+EndsInOpenIf(s) ==
+  CASE s.k = "if" -> IF IsNilNode(s.c[3]) THEN TRUE ELSE EndsInOpenIf(s.c[3])
+    [] s.k = "while" -> ~IsNilNode(s.c[2]) /\ EndsInOpenIf(s.c[2])
+    [] s.k = "for" -> ~IsNilNode(s.c[4]) /\ EndsInOpenIf(s.c[4])
+    [] OTHER -> FALSE
+RECURSIVE ProtectElse(_)
+ProtectElse(n) ==
+  LET kids == [j \in 1..Len(n.c) |-> ProtectElse(n.c[j])]
+  IN IF n.k = "if" /\ ~IsNilNode(n.c[3]) /\ ~IsNilNode(n.c[2]) /\ EndsInOpenIf(n.c[2])
+     THEN Node("if", n.op, <<kids[1], Blk(<<kids[2]>>), kids[3]>>)
+     ELSE Node(n.k, n.op, kids)
+
 \* positions (1-based child indices) that may legitimately be absent
 OptionalChild(n, j) ==
   \/ n.k = "let"  /\ j = 2            \* no initialiser
